@@ -1,4 +1,8 @@
-(** Wire entry points of property C18 (stub: replaced when the model is built). *)
+(** Wire entry points of property C18 (node-list splitting, key-value parsing):
+    sub 1 split_at_chars, 2 split_at_node, 3 filter, 4 parse_keyval_content,
+    5 LatexNodeList.get_content_as_chars, 6 get_content_nodelist,
+    7 SingleParsedArgumentInfo.get_content_as_chars, 8 parse_content_as_keyval.
+    Formats are documented at [Tree/Split.v: entry_split]. *)
 From Coq Require Import ZArith List.
-From PLV Require Import Base.Wire.
-Definition entry (sub : Z) (inp : list Z) : list Z := bad_input.
+From PLV Require Import Base.Wire Tree.Split.
+Definition entry (sub : Z) (inp : list Z) : list Z := entry_split sub inp.
